@@ -1,6 +1,8 @@
 """Helpers shared by harnesses. Work both under CrossHair tracing and natively."""
 from __future__ import annotations
 
+import json
+import os
 import sys
 
 
@@ -97,6 +99,14 @@ def begin(mod_name: str, **inputs) -> None:
         if len(lst) < 8:
             lst.append(mod.OPEN)
     mod.OPEN = {k: _plain(v) for k, v in inputs.items()}   # callers pass values that are already concrete Python objects
+    side = os.environ.get("VP_SIDE_DIR")
+    if side:
+        # survives the death of this process (segfault, OOM kill): the master replays these inputs natively
+        try:
+            with open(os.path.join(side, f"{os.getpid()}.json"), "w") as f:
+                json.dump(mod.OPEN, f)
+        except OSError:
+            pass
     if tracing():
         _arm(mod)
 
